@@ -158,6 +158,58 @@ let histories (c : cfg) : (int list * string) list =
       ([1], "R,K,V,R,K,V");
       ([0], "R,V,K,K,R,V,K,V") ]
 
+(* ---- specification oracle on the REAL observations (independent of the model of the code) ------ *)
+(* For every run: the events the controller received are a prefix of
+   [breakpoint events of the entries whose rule is in the breakpoint set] ++ [outcome of the plain parse],
+   an abort error is never received, and #received <= 1 + #cont=ok of that run.  The event sequence is
+   only checked for histories without add/delete (the set is then constant); the count always. *)
+let spec_oracle (c : cfg) (bps : int list) (cmds : string) (impl : string) (model_obs : string) : string option =
+  let obs = match String.split_on_char '|' impl with
+    | _ :: o :: _ -> List.filter (fun x -> x <> "") (String.split_on_char ',' o) | _ -> [] in
+  let cl = List.filter (fun x -> x <> "") (String.split_on_char ',' cmds) in
+  let static = not (List.exists (fun x -> x.[0] = 'A' || x.[0] = 'D') cl) in
+  let expected = List.filter_map (fun ((r, p), _) ->
+      if List.mem (int_of_n r) bps then Some (Printf.sprintf "B%d@%d" (int_of_n r) (int_of_n p)) else None) c.entries
+    @ [ (match c.outc with M.OEof -> "EOF" | M.OErr _ -> "ERR") ] in
+  let err = ref None and obs = ref obs and idx = ref 0 and conts = ref 0 and nrecv = ref 0 and started = ref false in
+  let fail m = if !err = None then err := Some m in
+  List.iter (fun cmd ->
+      if !err = None then
+      match cmd.[0], !obs with
+      | 'R', "run=panic" :: rest -> obs := rest
+      | 'R', _ -> started := true; idx := 0; conts := 0; nrecv := 0
+      | 'K', o :: rest -> obs := rest; if o = "cont=ok" then incr conts
+      | 'V', o :: rest ->
+        obs := rest;
+        let v = String.sub o 5 (String.length o - 5) in
+        if v = "ABORT" then fail "the error of an aborted parse was received"
+        else if v = "disc" || v = "norx" || v = "TIMEOUT" then ()
+        else begin
+          incr nrecv;
+          if static && !started then begin
+            (match List.nth_opt expected !idx with
+             | Some e when e = v -> ()
+             | Some e -> fail (Printf.sprintf "received %s where the parse has %s" v e)
+             | None -> fail (Printf.sprintf "received %s after the outcome" v));
+            incr idx
+          end;
+          if !nrecv > 1 + !conts then fail (Printf.sprintf "%d events received with %d cont" !nrecv !conts)
+        end
+      | _, _ -> ()) cl;
+  (* a granted wake-up that never happens: cont() did not resume the parse *)
+  let tr = match String.split_on_char '|' impl with t :: _ -> String.split_on_char ' ' t | [] -> [] in
+  let etr = match String.split_on_char (Char.chr 124) model_obs with t :: _ -> String.split_on_char ' ' t | [] -> [] in
+  let lastp = ref "" and agree = ref true in
+  List.iteri (fun i x ->
+      let same = (match List.nth_opt etr i with Some y -> y = x | None -> false) in
+      if String.length x > 2 && x.[0] = 'P' then begin
+        let pt = String.sub x 2 (String.length x - 2) in
+        (* only when the real threads had followed the model up to here *)
+        if pt = "TIMEOUT" && !lastp = "l_park" && !agree then fail "park() did not return although an unpark had been issued";
+        lastp := pt end;
+      if not same then agree := false) tr;
+  !err
+
 (* ---- main ---------------------------------------------------------------------------------- *)
 let () =
   let mode = if Array.length Sys.argv > 1 then Sys.argv.(1) else "check" in
@@ -198,6 +250,9 @@ let () =
             if undisc && !fixed then begin incr known; Printf.printf "KNOWN\tundisciplined\t%s\t%s\n" case impl end
             else report "spec" case impl "run() returns: every delivered event had been received when it was called"
           end;
+          (match spec_oracle c (ints bps) cmds impl expected with
+           | Some m -> report "spec" case impl m
+           | None -> ());
           if impl <> expected then report "model" case impl expected
         | _ -> ());
     Printf.printf "#RUNNER\tcases=%d\tmismatches=%d\tdistinct_nontrivial=%d\thangs=%d\tknown_undisciplined=%d\tfixed=%d\n"
